@@ -141,6 +141,11 @@ func c09Extras(r *fw.Rand, i int) []gen.NodeSpec {
 		ex = append(ex, gen.NodeSpec{Path: "other/up-link", Kind: "link", Target: "../mod/main.tf"})
 	}
 	if r.Chance(1, 2) {
+		ex = append(ex, gen.NodeSpec{Path: "..data/x.tf", Kind: "file", Mode: 0644, Content: "dd", Mtime: 1400000030})
+		ex = append(ex, gen.NodeSpec{Path: "mod/...", Kind: "file", Mode: 0644, Content: "ddd", Mtime: 1400000031})
+		ex = append(ex, gen.NodeSpec{Path: "notes..txt", Kind: "file", Mode: 0644, Content: "n", Mtime: 1400000032})
+	}
+	if r.Chance(1, 2) {
 		// link text that is not in its shortest form must survive as written
 		ex = append(ex, gen.NodeSpec{Path: "mod/dot-link", Kind: "link", Target: "./main.tf"})
 		ex = append(ex, gen.NodeSpec{Path: "other/winding-link", Kind: "link", Target: ".././mod//main.tf"})
@@ -154,6 +159,9 @@ func c09Extras(r *fw.Rand, i int) []gen.NodeSpec {
 		ex = append(ex, gen.NodeSpec{Path: "scripts/run.sh", Kind: "file", Mode: 0755, Content: "#!/bin/sh\n", Mtime: 1400000000})
 		ex = append(ex, gen.NodeSpec{Path: "scripts/readonly.txt", Kind: "file", Mode: 0444, Content: "ro", Mtime: 1400000001})
 		ex = append(ex, gen.NodeSpec{Path: "scripts/private.key", Kind: "file", Mode: 0600, Content: "k", Mtime: 1400000002, MtimeNs: 500000000})
+		// permission bits say nothing about what the (privileged) builder can read
+		ex = append(ex, gen.NodeSpec{Path: "scripts/sealed.bin", Kind: "file", Mode: 0000, Content: "sealed", Mtime: 1400000005})
+		ex = append(ex, gen.NodeSpec{Path: "scripts/dropbox.log", Kind: "file", Mode: 0200, Content: "write-only", Mtime: 1400000006})
 	}
 	if r.Chance(1, 2) {
 		ex = append(ex, gen.NodeSpec{Path: "readonly", Kind: "dir", Mode: 0555, Mtime: 1500000010})
@@ -312,6 +320,17 @@ func c09RunWorld(env *fw.Env, r *fw.Rand, w gen.World) fw.Result {
 			}
 			os.Remove(alias)
 		}
+	}
+	// in half of the worlds an earlier attempt to write the archive broke
+	// off (the receiving end failed): the archive written afterwards from
+	// the same bundle is still the bundle's archive
+	if h := fw.HashString("retry" + worldKey(&w)); h%2 == 0 {
+		fwr := &failingWriter{left: []int{0, 1, 100, 700, 5000}[(h/2)%5]}
+		fw.Try(func() { b0.WriteArchive(fwr) })
+		if res.Obs == nil {
+			res.Obs = map[string]int64{}
+		}
+		res.Obs["archives_written_after_an_attempt_that_broke_off"]++
 	}
 	var buf bytes.Buffer
 	var werr error
